@@ -237,7 +237,13 @@ func (w *World) writeOrder() map[string][]string {
 	return out
 }
 
-func projectionForSlices(w *World) map[string]string { return w.projection(true) }
+func projectionForSlices(w *World) map[string]string {
+	out := w.projection(true)
+	for k, v := range out {
+		out[k] = stripLatched(v)
+	}
+	return out
+}
 
 func c14Scenario(w *World, sliced int, sliceDrift bool) {
 	s := w.Scn
